@@ -30,6 +30,7 @@ struct Job {
     mono: u64,
     tick: u64,
     entropy: Option<Xo>,
+    route: u8,
 }
 struct Reply {
     out: Out,
@@ -55,7 +56,7 @@ fn spawn_executor() -> Executor {
                 seams::set_mono_raw(job.mono);
                 seams::set_entropy(job.entropy);
                 let refs: Vec<&[u8]> = job.args.iter().map(|a| a.as_slice()).collect();
-                let out = job.lib.call(job.g, job.op, &refs);
+                let out = job.lib.call_routed(job.g, job.op, &refs, job.route);
                 let entropy = seams::set_entropy(None);
                 seams::set_work_tick_ns(0);
                 seams::set_clock_ns(None);
@@ -114,10 +115,10 @@ pub fn restart_node(node: usize) {
 }
 
 /// Execute one library call in the process of the current node (inline when no node is current).
-pub fn call(lib: &dyn Lib, g: Grp, op: Op, args: &[&[u8]], lane: usize) -> Out {
+pub fn call(lib: &dyn Lib, g: Grp, op: Op, args: &[&[u8]], lane: usize, route: u8) -> Out {
     let node = current_node();
     if node == NO_NODE || !ENABLED.with(|c| c.get()) {
-        return lib.call(g, op, args);
+        return lib.call_routed(g, op, args, route);
     }
     // SAFETY: the call is synchronous — this function does not return before the executor has replied, so the
     // borrow of `lib` outlives its use on the other thread. (All `Lib`s are statics in this program anyway.)
@@ -133,6 +134,7 @@ pub fn call(lib: &dyn Lib, g: Grp, op: Op, args: &[&[u8]], lane: usize) -> Out {
         mono: seams::mono_raw(),
         tick: seams::work_tick_ns(),
         entropy: seams::set_entropy(None),
+        route,
     };
     REMOTE_CALLS.with(|c| c.set(c.get() + 1));
     let run = |e: &Executor, job: Job| -> Option<Reply> {
